@@ -238,6 +238,63 @@ fn drive(group: &[Kind], v0: i64, stmts: &[Vec<Stmt>], sched_prefix: &[usize], c
     Outcome { sched, trace, final_v, done, blocked, overlapped, anomaly }
 }
 
+/// Mutual-exclusion probe on the real code: while thread 0 is between `locked` and `done`, thread 1 is
+/// released towards its lock acquisition and must NOT reach `capi.write.locked` (it has to block inside
+/// begin_write); after thread 0 finished, thread 1 gets the lock by itself.
+fn probe_exclusion(group: &[Kind]) -> Result<(), String> {
+    let (_dir, db) = setup(0);
+    let baton = Baton::new(2);
+    baton.set_filter(0, POINTS);
+    baton.set_filter(1, POINTS);
+    baton.install();
+    let mut hs = vec![];
+    for t in 0..2 {
+        let d = db.clone();
+        hs.push(baton.spawn(t, move || {
+            d.exec("MATCH (n:C) SET n.c = n.c + 1").expect("exec");
+        }));
+    }
+    let lock_idx = group.iter().position(|k| *k == Kind::Lock).ok_or("no lock step")?;
+    let mut res = Ok(());
+    for t in 0..2 {
+        let _ = baton.wait_parked(t);
+    }
+    // thread 0: up to and including its lock step; thread 1: up to just before its lock step
+    for _ in 0..=lock_idx {
+        baton.step(0);
+    }
+    for _ in 0..lock_idx {
+        baton.step(1);
+    }
+    match baton.step_probe(1, std::time::Duration::from_millis(400)) {
+        Reached::Stuck => {}
+        r => res = Err(format!("second writer was not blocked while the first holds the writer lock: reached {:?}", r)),
+    }
+    if res.is_ok() {
+        for _ in lock_idx + 1..group.len() {
+            baton.step(0);
+        }
+        baton.step(0); // back to harness code / finish
+        match baton.wait_parked_for(1, std::time::Duration::from_secs(20)) {
+            Reached::Parked("capi.write.locked") => {}
+            r => res = Err(format!("after the first writer finished the second reached {:?} instead of acquiring the lock", r)),
+        }
+    }
+    baton.free_run();
+    for h in hs {
+        let _ = h.join();
+    }
+    Baton::uninstall();
+    if res.is_ok() {
+        let v = read_counter(&db)?;
+        if v != 2 {
+            res = Err(format!("exclusion probe: counter {} after two increments", v));
+        }
+    }
+    teardown(db);
+    res
+}
+
 fn stress(threads: usize, per: usize) -> (i64, i64, f64) {
     let t0 = std::time::Instant::now();
     let (_dir, db) = setup(0);
@@ -394,6 +451,13 @@ fn main() {
         idx += 1;
     }
     cw.flush();
+
+    // ---- the writer lock really blocks a second writer (the driver above only models it)
+    if let Err(e) = probe_exclusion(&group) {
+        fails += 1;
+        rep.fail(idx, None, &e, json!({"phase": "exclusion-probe"}));
+    }
+    *hist.entry("exclusion_probe".into()).or_insert(0) += 1;
 
     // ---- free-running stress (the search)
     let per = a.extra.iter().position(|x| x == "--stress").and_then(|i| a.extra.get(i + 1)).and_then(|s| s.parse().ok()).unwrap_or(200usize);
